@@ -74,6 +74,23 @@ return (out, ends)
                  'reference.fetch: substring, ValueError for a negative start (A4, pysam.FastaFile)'],
 )
 
+
+
+class _NativeFasta:
+    """native counterpart of the FASTA() helper for the replay: a one-contig reference (pysam.FastaFile behaviour: a negative
+    start raises ValueError, an end beyond the contig is clipped)"""
+
+    def __init__(self, seq):
+        self.seq = seq
+
+    def fetch(self, chrom, start, end):
+        if start < 0:
+            raise ValueError('start out of range (%i)' % start)
+        return self.seq[start:end]
+
+
+context.native_env = {'FASTA': _NativeFasta, 'CONTEXTS': [''.join(t) for t in itertools.product('ACGTN', repeat=2)],
+                      'TRIPLES': [''.join(t) for t in itertools.product('ACGT', repeat=3)]}
 UNITS = [context]
 
 
